@@ -17,7 +17,7 @@ fn base_sentences(gi: &GInfo, rule: usize) -> Vec<String> {
     for t in tapes {
         let mut tape = Tape::new(t);
         let s = gi.sg.sentence(&gi.rules[rule].0, &mut tape);
-        let s: String = s.chars().filter(|c| !matches!(c, ' ' | '#' | '\t' | '\n' | 'c' | '/' | '*')).collect();
+        let s: String = s.chars().filter(|c| !matches!(c, ' ' | '#' | '\t' | '\n' | 'c' | '/' | '*' | '\\')).collect();
         if !s.is_empty() && s.chars().count() <= 24 && !v.contains(&s) {
             v.push(s);
         }
@@ -39,6 +39,12 @@ pub fn check_input(ctx: &mut Ctx, gi: &GInfo, rule: usize, input: &str) -> CaseR
         return violation(ctx, gi, rule, input, format!("typed parser panicked: {}", pm), json!({}));
     }
     let got = if t.ok { t.end } else { None };
+    // the check-only path must stop where pest stops too
+    let c = gi.g.typed(Req { rule, entry: Entry::CheckPartial, form: Form::Str, deep: false }, input);
+    let got_check = if c.ok { c.end } else { None };
+    if c.panicked.is_none() && got_check != got {
+        return violation(ctx, gi, rule, input, format!("try_check_partial stops at {:?}, try_parse_partial at {:?} (pest: {:?})", got_check, got, want), json!({}));
+    }
     // second opinion
     let r = crate::interp::run(gi.ir, &crate::interp::Cfg::default(), &name, input, 0, input.len());
     if r.verdict() != Some(want) {
@@ -90,11 +96,15 @@ pub fn run(world: &World, ctx: &mut Ctx) -> Option<Value> {
     ctx.ev.extra.insert("grammars".into(), json!(grammars.len()));
     let budget_per_sentence = ctx.tier.pick(1024usize, 4096usize);
     for gi in grammars {
-        let skips: Vec<&str> = match (gi.ir.has_ws(), gi.ir.has_comment()) {
-            (true, true) => vec![" ", "#c#", " #c# "],
-            (true, false) => vec![" ", "  "],
-            (false, true) => vec!["#c#", "##"],
-            (false, false) => vec![" "],
+        let block = gi.g.text().contains("\"/*\"");
+        let skips: Vec<&str> = match (gi.ir.has_ws(), gi.ir.has_comment(), block) {
+            (true, true, false) => vec![" ", "#c#", " #c# "],
+            (true, false, _) => vec![" ", "  "],
+            (false, true, false) => vec!["#c#", "##"],
+            // block comments: an opener inside a comment must not nest
+            (true, true, true) => vec![" ", "/*c*/", "/*/*c*/", " /* /* */ "],
+            (false, true, true) => vec!["/*c*/", "/*/*c*/", "/**/"],
+            (false, false, _) => vec![" "],
         };
         for rule in 0..gi.rules.len() {
             let (name, kind) = gi.rules[rule].clone();
